@@ -386,6 +386,21 @@ func (l *orderColumnsRow) compareInt(lval, rval int64, reverse bool) int {
 }
 
 func (l *orderColumnsRow) compareFloat(lval, rval float64, reverse bool) int {
+	// NaN (float('NaN')) is neither smaller nor greater than any number: give
+	// it a fixed place before all numbers, an inconsistent answer would leave
+	// the other rows unsorted too
+	if lnan, rnan := lval != lval, rval != rval; lnan || rnan {
+		ret := 0
+		if !rnan {
+			ret = -1
+		} else if !lnan {
+			ret = 1
+		}
+		if reverse {
+			ret = -ret
+		}
+		return ret
+	}
 	if lval == rval {
 		return 0
 	}
